@@ -60,6 +60,12 @@ def init : St := { buf := fun _ => [], reg := fun _ => none, done := fun _ => fa
 
 def upd {β : Type} (f : Rid → β) (r : Rid) (v : β) : Rid → β := fun x => if x = r then v else f x
 
+/-- the watchdog's test on one entry of `reqSign`: registered and its context is done -/
+def gone (st : St) (r : Rid) : Bool :=
+  match st.reg r with
+  | some h => st.done h
+  | none => false
+
 /-- one iteration of the `for { select { … } }` loop: new state and the sends performed -/
 def step (st : St) : Ev → St × List (Nat × Share)
   | .arrive s =>
@@ -72,11 +78,8 @@ def step (st : St) : Ev → St × List (Nat × Share)
   | .cancel h => ({ st with done := fun x => if x = h then true else st.done x }, [])
   | .watchdog =>
     -- every registered request whose context is done: close(reply); delete(bufSign,…); delete(reqSign,…)
-    let gone : Rid → Bool := fun r => match st.reg r with
-      | some h => st.done h
-      | none => false
-    ({ st with reg := fun r => if gone r then none else st.reg r,
-               buf := fun r => if gone r then [] else st.buf r }, [])
+    ({ st with reg := fun r => if gone st r then none else st.reg r,
+               buf := fun r => if gone st r then [] else st.buf r }, [])
   | .other => (st, [])
 
 /-- the loop over a whole schedule: final state and all sends, in order -/
